@@ -58,6 +58,8 @@ Proof.
   - apply ex_starts; auto.
   - apply ex_ends; auto.
   - apply ex_len; auto.
+  - apply ex_append_own; auto.
+  - apply ex_printf_self; auto.
 Qed.
 
 Lemma step_refines w o : Inv w ->
@@ -159,7 +161,8 @@ Definition target (o : op) : option nat :=
   match o with
   | OAttach v _ _ _ | OAssign v _ | OClear v | OResize v _ _ | OPoke v _ _
   | OAppendS v _ | OAppendB v _ | OAppendC v _ | OPrependS v _ | OPrependB v _
-  | OReplaceC v _ _ | OReplaceS v _ _ | OLower v | OUpper v | OTrim v _ | OPrintf v _ | OJoin v _ _ => Some v
+  | OReplaceC v _ _ | OReplaceS v _ _ | OLower v | OUpper v | OTrim v _ | OPrintf v _ | OJoin v _ _
+  | OAppendOwn v _ _ | OPrintfSelf v _ _ => Some v
   | _ => None
   end.
 
